@@ -37,7 +37,8 @@ def gen_cases(tier, seed):
         sch = dict(r.choice(scheds))
         sch["sched_seed"] = r.randrange(1 << 30)
         use = r.random() < 0.93
-        yield {"spec": spec, "driver": driver, "bs": bs, "workers": r.choice([1, 2, 4, 8, 16]), "policy": pol, "plan": sch, "use": use, "maxblocks": maxblocks, "fs": "ext4"}
+        yield {"spec": spec, "driver": driver, "bs": bs, "workers": r.choice([1, 2, 4, 8, 16]), "policy": pol, "plan": sch, "use": use, "maxblocks": maxblocks, "fs": "ext4",
+               "extra": r.choice([[], [], [], ["--no-perms"], ["--no-timestamps"], ["--no-perms", "--no-timestamps"], ["--ownership"], ["--backup", "numbered"], ["-L"], ["--gitignore"], ["--reflink", "never"]])}
 
 
 def run_case(case):
@@ -52,7 +53,7 @@ def run_case(case):
             rules.append({"id": "s", "sys": "copy_file_range", "under": root + "/", "action": "short", "len": "half"})
         plan = dict(case["plan"])
         plan.update({"log_mode": "full", "rules": rules, "pct_horizon": 600})
-        args = ["--driver", case["driver"], "-w", str(case["workers"]), "--block-size", str(case["bs"])] + (["--fsync"] if case["use"] else []) + ["-r", "src", "dst"]
+        args = ["--driver", case["driver"], "-w", str(case["workers"]), "--block-size", str(case["bs"])] + (["--fsync"] if case["use"] else []) + case.get("extra", []) + ["-r", "src", "dst"]
         run = core.run_xcp(sb, args, plan)
         if run.verdict != "exited":
             res["inconc"].append("run-" + run.verdict)
